@@ -27,7 +27,7 @@ WriteSeen(len) == Min(len, MSize - 23)
 Lens == {0, 1, 2, MSize - 25, MSize - 24, MSize - 23, MSize - 22, MSize - 12, MSize - 11, MSize - 10, MSize, MSize + 1000, 1048576}
 Offsets == {"0", "1", "2^31", "2^32", "2^63-1", "2^63", "2^64-1"}
 Fids == {"0", "1", "NOFID-1", "NOFID"}
-Errs == {"none", "plain", "empty", "long", "unicode", "rerror"}
+Errs == {"none", "plain", "empty", "long", "unicode", "rerror", "wrapped"}
 
 \* read: S returns k bytes (k <= what it was handed) or an error
 ReadVectors ==
